@@ -223,9 +223,9 @@ func pipeCorpus() []Case {
 
 func gen(seed uint64, tier string) []interface{} {
 	r := lib.NewRng(seed)
-	ngate, ntick, npipe := 170, 6, 3
+	ngate, ntick, npipe := 150, 6, 3
 	if tier == "thorough" {
-		ngate, ntick, npipe = 3000, 60, 45
+		ngate, ntick, npipe = 2000, 40, 27
 	}
 	var out []interface{}
 	id := int64(1)
